@@ -503,6 +503,40 @@ example : (run 0 b2 [[eA, eC, eA, eB], [hA, fA, fB, hA, fA], [gA, hA, gA]].flatt
     losing branch (see `depth2_rollback` for what happens next) -/
 example : (run 0 b2 [eA, hA]).g.path = [1, 7] := by decide
 
+/-! ### 5b. a rollback over two epochs -/
+
+/-- **depth2_rollback**: the client first follows the loser `a` of a fork and then a child `a'` of `a`
+    (it is two epochs down the losing branch), then receives the better sibling `b`.  With snapshot
+    retention ≥ 2 the snapshot of the fork's parent state is still there: the client rolls back over both
+    epochs, applies `b`, and ends in `b`'s child of the parent state; `a` and `a'` are EpochInvalidated
+    (the dedup step refuses them from now on). -/
+theorem depth2_rollback (c : Cl) (a b a' : Ev) (nx : Nat)
+    (hg : c.hasGroup = true) (hr : 2 ≤ c.retention) (hsec : SecretsOK c.g) (hbelow : Below c)
+    (hS : Siblings c [a, b]) (hab : a ≠ b) (hlt : klt (key b) (key a) = true)
+    (hc : ChildOf c a a') (hn : a'.n ≠ a.n ∧ a'.n ≠ b.n) (hci : a'.cipher ≠ a.cipher) :
+    (run nx c [a, a', b]).g.path = c.g.path ++ [b.cipher] ∧
+    wc (run nx c [a, a', b]).g [] = wc (childG c b) [] ∧
+    (getRec (run nx c [a, a', b]) b.n).map (·.state) = some 2 ∧
+    (getRec (run nx c [a, a', b]) a.n).map (·.state) = some 4 ∧
+    (getRec (run nx c [a, a', b]) a'.n).map (·.state) = some 4 := by
+  obtain ⟨hcf, hrb, hra, hra'⟩ := depth2_core c a b a' nx hg hr hsec hbelow hS hab hlt hc hn hci
+  have hb : Base c := base_of c hg (by omega) hsec hbelow.noFork
+  have sb := (sibs_of c [a, b] hS).sib b (by simp)
+  exact ⟨cform_path hb sb.com hcf, by rw [hcf.g]; rfl, by rw [hrb]; rfl, hra, hra'⟩
+
+/-- non-vacuity: A (ts 20), its child hA, then the better B (ts 19) -/
+example : (run 0 b2 [eA, hA, eB]).g.path = b2.g.path ++ [eB.cipher] :=
+  (depth2_rollback b2 eA eB hA 0 rfl (by decide) b2_secrets b2_below
+    (siblings_of_dec b2 [eA, eB] (by decide) (by decide) (by decide) (by decide) (by decide) (by decide))
+    (by decide) (by decide) ⟨by decide, ⟨_, _, rfl, by decide⟩, by decide, by decide, by decide, by decide⟩
+    (by decide) (by decide)).1
+
+/-- the retention hypothesis is needed ("forks up to the configured snapshot-retention depth"): with
+    retention 1 the parent's snapshot is gone when B arrives and the client stays on [A, hA] -/
+theorem witness_depth2_retention :
+    (run 0 b2 [eA, hA, eB]).g.path = [2] ∧ (run 0 b2 [eA, hA]).g.path = [1, 7] ∧
+    (run 0 (initCl 2 false 1 [0, 1, 2, 3] [0, 1, 3] 1) [eA, hA, eB]).g.path = [1, 7] := by decide
+
 /-! ### 6. the full statement (every schedule) and its refutation -/
 
 /-- convergence for EVERY schedule over the events of a chain, not only level-by-level ones: whatever
